@@ -36,10 +36,14 @@ def cases(tier, seed):
             if tier == "quick" and scheme in ("qam", "pam") and (prm.get("normalize") is False and prm.get("order", 0) > 16):
                 continue
             yield f"C09|{pr}|{scheme},{cfgs}", {"pair": pr, "spec": spec, "tier": tier}
+    # links whose codes share class and (n, k) built one after the other in ONE process (decoder state shared between instances)
+    bpsk = ("bpsk", "complex=1", {"complex_output": True})
+    yield "C09|mixing|hamming-left-right", {"pairs": ["hamming74+syndrome", "hamming-r+syndrome", "hamming74+bruteforce", "hamming-r+syndrome", "hamming74+syndrome"], "spec": bpsk, "tier": tier}
+    yield "C09|mixing|bch-15", {"pairs": ["bch15_7+bm", "bch15_5+bm", "bch15_7+bm"], "spec": bpsk, "tier": tier}
 
 
 def component_of(p):
-    return p["pair"]
+    return p.get("pair", "mixing")
 
 
 def build_pair(pr):
@@ -64,6 +68,14 @@ def build_pair(pr):
 
 
 def execute(p, res):
+    if "pairs" in p:
+        for pr in p["pairs"]:
+            run_pair({"pair": pr, "spec": p["spec"], "tier": p["tier"]}, res)
+    else:
+        run_pair(p, res)
+
+
+def run_pair(p, res):
     import torch
     from kaira.channels import LambdaChannel, PerfectChannel
     from kaira.constraints import IdentityConstraint
